@@ -486,8 +486,11 @@ class Ctx:
             "coverage": cov, "assumptions": self.assumptions, "wall_s": round(wall, 2),
             "violations": len(self.violations),
         }
-        os.makedirs(os.path.join(ROOT, "evidence"), exist_ok=True)
-        open(os.path.join(ROOT, "evidence", self.pid + ".json"), "w").write(json.dumps(ev, indent=1, default=str) + "\n")
+        # evidence/<id>.json describes runs against /repo itself; a run against another checkout
+        # (VERIF_REPO: seeded-mutation tests, self-tests) must not overwrite it
+        evdir = os.path.join(ROOT, "evidence") if os.path.realpath(REPO) == "/repo" else os.path.join(ROOT, "replays", "evidence-other-checkout")
+        os.makedirs(evdir, exist_ok=True)
+        open(os.path.join(evdir, self.pid + ".json"), "w").write(json.dumps(ev, indent=1, default=str) + "\n")
         self.log("obligations %d/%d discharged, %d cases (%d distinct non-trivial), %d violation(s), %d known finding(s), %.1fs"
                  % (ndis, nob, self.evaluations, len(self._distinct), len(self.violations), len(self.known_hits), wall))
         return 1 if self.violations else 0
